@@ -16,6 +16,7 @@ import (
 	"go.nanomsg.org/mangos/v3/protocol/sub"
 	"go.nanomsg.org/mangos/v3/protocol/surveyor"
 	_ "go.nanomsg.org/mangos/v3/transport/inproc"
+	"go.nanomsg.org/mangos/v3/vh/c08"
 	"go.nanomsg.org/mangos/v3/vh/kinds"
 	"go.nanomsg.org/mangos/v3/vh/kit"
 	"go.nanomsg.org/mangos/v3/vh/ledger"
@@ -49,6 +50,7 @@ func init() {
 			{Name: "fanout-bus-inproc", Mode: "sched", Bound: b, Cfg: pool, Reset: kit.ResetGlobals, Body: func() { fanoutMesh(bus.NewSocket) }},
 			{Name: "fanout-star-inproc", Mode: "sched", Bound: b, Cfg: pool, Reset: kit.ResetGlobals, Body: func() { fanoutMesh(star.NewSocket) }},
 			{Name: "fanout-survey-inproc", Mode: "sched", Bound: b, Cfg: pool, Reset: kit.ResetGlobals, Body: fanoutSurvey},
+			{Name: "star-hub-stalled-member-ownership", Mode: "enum", Reset: kit.ResetGlobals, Body: func() { ledger.Install(); c08.StarStalled() }},
 			{Name: "req-retained-request-loss", Mode: "hist", Reset: kit.ResetGlobals, Body: reqRetained},
 			{Name: "pub-pipe-fails-mid-send", Mode: "sched", Bound: b, Reset: kit.ResetGlobals, Body: pubPipeFails},
 			{Name: "fanout-stream-write-error", Mode: "sched", Bound: b - 1, Reset: kit.ResetGlobals, Body: streamWriteError},
